@@ -471,3 +471,31 @@ def refusals(fn: ast.AST) -> list[tuple[tuple[tuple[str, str], ...], frozenset]]
     if not walk(paths, (), set()):
         return None
     return out
+
+
+def outcomes(fn: ast.AST, atoms: list[str], helpers: dict | None = None) -> list[dict]:
+    """One row per feasible path of `fn`: the truth value each of the given atoms has on it (None when the path does
+    not depend on it), the resolved texts of the statements executed, how the path ends and what it returns.  Rules
+    state their expectation as a decision table over these rows instead of matching statement layout."""
+    rows = []
+    for p in expand_predicates(enum_paths(fn), helpers or {}):
+        if not p.feasible():
+            continue
+        nf = p.nfacts()
+        facts = {a: next((pol for t, pol in nf if t == a), None) for a in atoms}
+        effs = []
+        for k, e in enumerate(p.effects):
+            if isinstance(e, ast.stmt) and not isinstance(e, (ast.Return, ast.Raise)):
+                try:
+                    if isinstance(e, ast.Expr):
+                        effs.append(p.res(e.value, k))
+                    elif isinstance(e, ast.Assign) and len(e.targets) == 1:
+                        effs.append(f"{unparse(e.targets[0])} = {p.res(e.value, k)}")
+                    elif isinstance(e, ast.AugAssign):
+                        effs.append(unparse(e))
+                    else:
+                        effs.append(unparse(e))
+                except Exception:
+                    effs.append(unparse(e))
+        rows.append({"facts": facts, "effects": effs, "end": p.end, "value": p.rvalue(), "path": p, "loops": [e for e in p.effects if isinstance(e, Loop)]})
+    return rows
